@@ -4,7 +4,7 @@ import random
 
 from .. import core, lifecheck as L
 
-ALL = ["p1", "p2", "p3", "p4", "p5", "p6", "p7", "p8", "p9", "p10", "p11", "p12", "p13", "p14", "p15", "bad", "bad2", "bad3"]
+ALL = ["p1", "p2", "p3", "p4", "p5", "p6", "p7", "p8", "p9", "p10", "p11", "p12", "p13", "p14", "p15", "p16", "bad", "bad2", "bad3", "bad4"]
 PRETOOLED = ["p1", "p2", "q2", "p4", "p5", "p3", "p8"]      # histories on functions tooled in place beforehand; q2 is a plain overlay
 
 
@@ -48,10 +48,10 @@ def run(out, tier, seed):
     cases = []
     sigs_all = {}
     if tier == "quick":
-        plans = [(5, ["p1", "p3", "p4", "bad"]), (4, ["p6", "p1", "p4"]), (4, ["p7", "p8", "p9"]), (4, ["p10", "p1", "p4"]), (4, ["bad3", "p1", "p4"]), (4, ["p11", "p1", "p8"]), (5, ["p12", "p13"]), (4, ["p14", "p15", "p1"]), (4, ["p2", "p4", "p1"], True)]
+        plans = [(5, ["p1", "p3", "p4", "bad"]), (4, ["p6", "p1", "p4"]), (4, ["p7", "p8", "p9"]), (4, ["p10", "p1", "p4"]), (4, ["bad3", "p1", "p4"]), (4, ["p11", "p1", "p8"]), (5, ["p12", "p13"]), (4, ["p14", "p15", "p1"]), (4, ["p2", "p4", "p1"], True), (4, ["p16", "p4", "bad4"])]
     else:
         plans = [(6, ["p1", "p3", "p4", "bad"]), (5, ["p2", "p5", "p4", "bad2"]), (5, ["p1", "p2", "p3", "p4", "p5"]),
-                 (5, ["p6", "p1", "p4", "bad2"]), (5, ["p7", "p8", "p9", "p1"]), (5, ["p10", "p1", "p2", "bad"]), (5, ["bad3", "p1", "p3", "p4"]), (5, ["p11", "p1", "p7", "p8"]), (6, ["p12", "p13"]), (5, ["p12", "p13", "p1"]), (5, ["p14", "p15", "p1", "p2"]), (5, ["p2", "p4", "p1", "p14"], True)]
+                 (5, ["p6", "p1", "p4", "bad2"]), (5, ["p7", "p8", "p9", "p1"]), (5, ["p10", "p1", "p2", "bad"]), (5, ["bad3", "p1", "p3", "p4"]), (5, ["p11", "p1", "p7", "p8"]), (6, ["p12", "p13"]), (5, ["p12", "p13", "p1"]), (5, ["p14", "p15", "p1", "p2"]), (5, ["p2", "p4", "p1", "p14"], True), (5, ["p16", "p4", "bad4", "p1"])]
     for plan in plans:
         maxops, uni, incall = plan[0], plan[1], len(plan) > 2
         hists, sigs = L.explore(out, maxops, uni, f"LifeMechMC[{maxops},{'+'.join(uni)}{',in-call' if incall else ''}]", incall=incall)
@@ -99,6 +99,8 @@ def run(out, tier, seed):
             if tag == "FAIL":
                 f = rest[0]
                 sig = {"clause": f["clause"], "nonlifo": f["nonlifo"], "mech": f["mech"], "incall": f.get("incall", False)}
+                if f.get("lraised") and f["clause"] == "Receives:lost":
+                    sig.update({"lraised": True, "who": f["who"]})
             else:
                 sig = {"clause": "Incomplete"}
             out.judge(sig, {"case": by_id[tid], "verdict": [tag, rest]})
@@ -130,5 +132,8 @@ def replay(out, path):
     for tid, items in fails.items():
         for tag, rest in items:
             f = rest[0] if tag == "FAIL" else {"clause": "Incomplete", "nonlifo": False, "mech": False}
-            out.judge({"clause": f["clause"], "nonlifo": f.get("nonlifo"), "mech": f.get("mech"), "incall": f.get("incall", False)}, {"case": case, "verdict": [tag, rest]})
+            sig = {"clause": f["clause"], "nonlifo": f.get("nonlifo"), "mech": f.get("mech"), "incall": f.get("incall", False)}
+            if f.get("lraised") and f["clause"] == "Receives:lost":
+                sig.update({"lraised": True, "who": f["who"]})
+            out.judge(sig, {"case": case, "verdict": [tag, rest]})
     out.samples.append({"replayed": path, "fails": len(fails)})
